@@ -6,6 +6,18 @@ use crate::engine::{Avx2, Ssse3};
 #[cfg(target_arch = "aarch64")]
 use crate::engine::Neon;
 
+// Verification hook: feature detection restricted by `verif::set_feature_mask`.
+// This module-local macro shadows `std::is_x86_feature_detected!` below.
+#[cfg(all(
+    feature = "verif-hooks",
+    any(target_arch = "x86", target_arch = "x86_64")
+))]
+macro_rules! is_x86_feature_detected {
+    ($name:tt) => {
+        (crate::verif::feature_allowed($name) && std::is_x86_feature_detected!($name))
+    };
+}
+
 // ======================================================================
 // DefaultEngine - PUBLIC
 
